@@ -117,6 +117,18 @@ CHECKS = {
     note='The hash function is outside TLA+: the model carries tree shape and alignment, hash validity is a Go-side fact produced by the '
          'independent verifier. quick samples a quarter of the larger shapes (all small ones); thorough runs all 1352.',
     technique='TLA+ case enumeration + TLC judgement of replayed real blocks with an independent proof verifier'),
+ 'C14': dict(
+    engine='TxRequests',
+    category='model_checking',
+    text='TLA+ specification of transaction requesting (spec/TxRequests.tla: MemPool.AddRequest with the 3 s window, per-connection TxTracker, '
+         'inventory handlers, body arrival, periodic Check, confirmation clean-up) checked exhaustively by TLC (Exclusive, NoneAfterBody, Rerequest, '
+         'Forgotten, TrackedOrAsked). TLC-simulated histories over a trusted and two untrusted connections (real UntrustedNode objects driven '
+         'without sockets) are replayed on the real handlers, trackers and mempool with timestamp shifting; every getdata is recorded with its '
+         'connection and time; TLC evaluates the formulas on the recorded history and validates each step against the specification.',
+    design_ref='DESIGN.md 5.5, 6 (C14)',
+    note='Connections are stepped sequentially (no concurrent goroutines in this check). F20 (final partial getdata never sent) and F17 (tracker '
+         'stopped after reconnect) were repaired.',
+    technique='TLA+ spec + TLC exhaustive + replay with trace validation'),
 }
 
 NOT_YET = {}
